@@ -41,6 +41,18 @@ mut("c04_delete_no_load", "src/blob/core.rs", """        if on_disk {
 mut("c04_close_no_push", "src/storage/core.rs", """                ablob.fsyncdata().await?;
                 safe.blobs.write().await.push(ablob).await;""", """                ablob.fsyncdata().await?;
                 if ablob.records_count() > 0 { safe.blobs.write().await.push(ablob).await; }""", ["C04", "C15"], "closing an empty active blob forgets it")
+# ---- C05
+mut("c05_no_audit_load_data", "src/blob/entry.rs", "        self.header.data_checksum_audit(&data)?;\n        Ok(data)", "        Ok(data)", ["C05"])
+mut("c05_no_validate_load", "src/blob/entry.rs", "        Record::new(self.header, meta, data_buf)\n            .validate()\n", "        Ok(Record::new(self.header, meta, data_buf))\n", ["C05"], "checksum verification removed from the read path")
+mut("c05_include_data_off", "src/record/record.rs", "let include_data = head_size + data.len() <= MAX_SINGLE_PASS_DATA_SIZE;", "let include_data = head_size + data.len() <= MAX_SINGLE_PASS_DATA_SIZE + 1;", ["C05"], "EQUIVALENT on behaviour (one more byte in the single buffer)")
+mut("c05_double_offset", "src/io/unix/sync.rs", "                offset = offset + b1.len() as u64;", "                offset = offset + b1.len() as u64 - ((b1.len() == 4000) as u64);", ["C05"], "second buffer lands one byte early for one head size")
+mut("c05_regen_no_data_check", "src/blob/core.rs", "            if let Some(data) = data {\n                header.data_checksum_audit(&data)", "            if let Some(data) = data.filter(|_| false) {\n                header.data_checksum_audit(&data)", ["C05"], "validate_data_during_index_regen ignored")
+# ---- C03
+mut("c03_stale_gt", "src/blob/index/bptree/core.rs", "        if self.header.blob_size() != blob_size {", "        if self.header.blob_size() > blob_size {", ["C03"], "stale index (smaller recorded blob size) accepted")
+mut("c03_skip_written", "src/blob/index/bptree/core.rs", "        if !self.header.is_written() {\n            let param = ValidationErrorKind::IndexNotWritten;\n            return Err(", "        if false {\n            let param = ValidationErrorKind::IndexNotWritten;\n            return Err(", ["C03"])
+mut("c03_maxid_ignores_failed", "src/storage/core.rs", "                        max_blob_id = max_blob_id.max(Some(file_name.id()));", "                        let _ = file_name;", ["C03"], "max id ignores files that failed to open")
+mut("c03_f5_revert", "src/blob/index/bptree/core.rs", "        if self.file.size() != expected_size {", "        if false && self.file.size() != expected_size {", ["C03"], "reverts fix F5")
+mut("c03_f6_revert", "src/storage/core.rs", "let max_blob_id = max_blob_id.max(Self::max_old_corrupted_blob_id(&self.inner.config).await);", "", ["C03", "C07"], "reverts fix F6")
 # ---- C09
 mut("c09_leaf_pack_eq", "src/blob/index/bptree/serializer.rs", "            if remainder < record_header_size {", "            if remainder <= record_header_size {", ["C09"], "EQUIVALENT: starts a new leaf one header early, still a valid tree")
 mut("c09_leaf_pack", "src/blob/index/bptree/serializer.rs", "            if remainder < record_header_size {", "            if remainder + 1 < record_header_size {", ["C09"], "leaf packing off-by-one: a header may cross the 4 KiB block end")
